@@ -27,18 +27,18 @@ READY = True
 LEVEL = "fault_enumeration"
 TECHNIQUE = ("runtime monitoring: returned dicts of run_contingency_parallel under seeded schedule perturbation (n_procs x delay "
              "seeds, observed completion orders logged) compared with run_contingency")
-CASES = {"quick": 40, "thorough": 1000}       # a case costs 8-25 CPU-s: every pool worker pays ~0.5 s after its fork
+CASES = {"quick": 32, "thorough": 1000}       # a pool worker costs 1.5-2.5 CPU-s after its fork (page faults): ~14 CPU-s per case
 BUDGET = {"quick": 60, "thorough": 1500}
 CASE_TIMEOUT = 240
 WATCHDOG = {"quick": 90, "thorough": 180}
-FLOORS = {"quick": {"nontrivial": 15, "max_skip_frac": 0.3,
-                    "tags": {"n_procs=8": 3, "n_procs=1": 20, "unwrapped_run": 3, "trafo_cases": 10, "oos_element_in_case_list": 1},
-                    "extras": {"parallel_runs": 60, "runs_completed_out_of_task_order": 15, "runs_with_several_pids": 30,
-                               "dict_comparisons": 80, "distinct_orders_in_case": 40}},
+FLOORS = {"quick": {"nontrivial": 12, "max_skip_frac": 0.3,
+                    "tags": {"n_procs=8": 2, "n_procs=1": 16, "unwrapped_run": 2, "trafo_cases": 8, "several_pool_sizes": 5},
+                    "extras": {"parallel_runs": 40, "runs_completed_out_of_task_order": 8, "runs_with_several_pids": 15,
+                               "dict_comparisons": 45, "distinct_orders_in_case": 25}},
           "thorough": {"nontrivial": 300, "max_skip_frac": 0.3, "tags": {"n_procs=8": 100, "unsolved_case": 10, "unwrapped_run": 100},
                        "extras": {"parallel_runs": 3000, "runs_completed_out_of_task_order": 800, "distinct_orders_in_case": 1500}}}
 RULE = ("one case = one generated N-1 set-up (network, ratings, case dict, options as in C14, <= 8 outages in quick) x n_procs = 1 "
-        "plus 2 (quick) / 3 (thorough) pool sizes drawn from {2,3,4,8} x seeded delay patterns (1 in quick, 2 in thorough), one "
+        "plus 1-2 (quick) / 3 (thorough) pool sizes drawn from {2,3,4,8} x seeded delay patterns (1 in quick, 2 in thorough), one "
         "pool run with plain runpp in 30 % of the cases; "
         "non-trivial = >= 2 outages solved and >= 2 parallel runs returned; distinct = digest of net + cases + options + schedule")
 ASSUMPTIONS = ["schedules are perturbed by seeded sleeps inside the evaluation function; the completion orders that occurred are "
@@ -137,9 +137,9 @@ def run_case(seed, tier, case_no):
         kw["calculate_voltage_angles"] = g.B(0.7)
     kw1 = {"trafo_loading": "power"} if g.B(0.35) else None      # N-1 option that differs from the N-0 default
     kw0 = {"trafo_model": g.C(["t", "pi"])} if g.B(0.1) else None
-    # every pool worker costs 1-3 CPU-s of copy-on-write faults after the fork: n_procs = 1 always, plus 2 (quick) or 3 (thorough)
+    # every pool worker costs 1.5-2.5 CPU-s of page faults after the fork: n_procs = 1 always, plus 1-2 (quick) or 3 (thorough)
     # different pool sizes per case; one of the pool runs uses plain runpp with probability 0.3
-    k = 2 if tier == "quick" else 3
+    k = (2 if g.B(0.4) else 1) if tier == "quick" else 3
     n_par = sorted(int(x) for x in g.rng.choice([2, 3, 4, 8], size=k, replace=False, p=[0.35, 0.3, 0.2, 0.15]))
     dseeds = [g.I(0, 10 ** 6) for _ in range(1 if tier == "quick" else 2)]
     runs = [("p1_d0", 1, True, dseeds[0])]
@@ -164,6 +164,8 @@ def run_case(seed, tier, case_no):
     for el in ("trafo", "trafo3w"):
         if cases.get(el):
             tags.add("trafo_cases")
+    if k > 1:
+        tags.add("several_pool_sizes")
 
     wd = os.path.join(WORK, "%d_%d" % (os.getpid(), case_no))
     shutil.rmtree(wd, ignore_errors=True)
